@@ -29,7 +29,13 @@ def slice_refs(vm, m, v):
         s = vm.read_at(m, v.cell, v.path)
         if isinstance(s, Seq): return [Ref(v.cell, v.path + (('i', k),)) for k in range(len(s.items))]
         if isinstance(s, (Ref, SliceRef)): return slice_refs(vm, m, s)
+        if _is_box(s): return slice_refs(vm, m, s.f[0].f[0])
+    if _is_box(v): return slice_refs(vm, m, v.f[0].f[0])
     raise VMError('not a slice ref: %r' % (v,))
+
+def _is_box(v):
+    """Box<[T]> / Box<T>: Struct((Struct((pointer,)), allocator), 'Box') - the pointer is a Ref or a SliceRef"""
+    return isinstance(v, Struct) and v.ty == 'Box' and v.f and isinstance(v.f[0], Struct) and v.f[0].f and isinstance(v.f[0].f[0], (Ref, SliceRef))
 
 def as_slice(vm, m, v):
     """normalise &Vec<T> / &[T;N] / &[T] to a SliceRef"""
@@ -38,6 +44,8 @@ def as_slice(vm, m, v):
         s = vm.read_at(m, v.cell, v.path)
         if isinstance(s, Seq): return SliceRef(v.cell, v.path, 0, len(s.items))
         if isinstance(s, (Ref, SliceRef)): return as_slice(vm, m, s)
+        if _is_box(s): return as_slice(vm, m, s.f[0].f[0])
+    if _is_box(v): return as_slice(vm, m, v.f[0].f[0])
     raise VMError('as_slice of %r' % (v,))
 
 def try_branch(vm, m, v):
@@ -171,6 +179,7 @@ def dispatch(vm, m, callee, args):
                 return ret(m, Enum(rv.idx, rv.name, (Ref(v.cell, v.path + (('f', 0),)),), rv.ty))
         if n == 'as_deref' and isinstance(v, Ref):
             if rv.name == 'None': return ret(m, NONE())
+            if _is_box(rv.f[0]): return ret(m, SOME(rv.f[0].f[0].f[0]))
             return ret(m, SOME(Ref(v.cell, v.path + (('f', 0),))))
         if n == 'err':
             return ret(m, SOME(rv.f[0]) if rv.name == 'Err' else NONE())
